@@ -24,7 +24,7 @@ namespace Hio.Http.Req
 open Hio.Http
 
 inductive Exn
-  | unmodelled | incomplete | badRequestLine | unknownProtocol | badMethod | valueError | tooManyHeaders | noLength
+  | unmodelled | incomplete | badRequestLine | unknownProtocol | badMethod | valueError | tooManyHeaders | noLength | lineTooLong
 deriving Repr, DecidableEq
 
 /-! ### urllib.parse at byte level -/
@@ -237,12 +237,13 @@ def parseLeader : Nat → Bytes → Headers → Except Exn (Headers × Bytes)
     match takeLine raw with
     | none => .error .incomplete
     | some (line, rest) =>
-      if line.isEmpty then .ok (hs, rest)
+      if line.length > Gen.maxLineSize then .error .lineTooLong
+      else if line.isEmpty then .ok (hs, rest)
       else match split2 58 32 line with
         | none => .error .valueError
         | some (k, v) =>
           let hs' := setKey (lower k) v hs
-          if hs'.length > 100 then .error .tooManyHeaders else parseLeader fuel rest hs'
+          if hs'.length > Gen.maxHeaders then .error .tooManyHeaders else parseLeader fuel rest hs'
 
 /-- the request target as `urlsplit` sees it on the server: (quoted path, raw query) -/
 def splitTarget (url : Bytes) : Except Exn (Bytes × Bytes) :=
@@ -256,6 +257,7 @@ def recover (raw : Bytes) : Except Exn (View × Bytes) :=
   match takeLine raw with
   | none => .error .incomplete
   | some (line, rest) =>
+    if line.length > Gen.maxLineSize then .error .lineTooLong else
     if line.isEmpty then .error .badRequestLine else
     let ws := words line
     let method := ws.getD 0 []
